@@ -62,6 +62,10 @@ func add(f Finding) {
 
 var reID = regexp.MustCompile(`id=([a-z0-9]+)/([0-9]+);`)
 
+// rows of endpoints that stamp the arrival time themselves (Elasticsearch doc / bulk, Datadog logs) or whose stored line is the
+// whole submitted document: the id travels in the line only
+var reXID = regexp.MustCompile(`xid:([a-z0-9]+)/([0-9]+);`)
+
 func tableOf(body string) string {
 	m := regexp.MustCompile(`(?i)INSERT INTO\s+([a-z_0-9]+)`).FindStringSubmatch(body)
 	if m == nil {
@@ -102,6 +106,12 @@ func idsOf(b *fakech.Block) ([]string, string) {
 			m := reID.FindStringSubmatch(str(row, "string"))
 			ts := row[colIdx(b, "timestamp_ns")].(int64)
 			val := row[colIdx(b, "value")].(float64)
+			if m == nil {
+				if x := reXID.FindStringSubmatch(str(row, "string")); x != nil {
+					ids = append(ids, x[1]+"/"+x[2])
+					continue
+				}
+			}
 			if m == nil {
 				// metric sample: id is carried by value + timestamp (value = seq, ts = base + seq)
 				seq := int64(val)
@@ -227,6 +237,46 @@ func lokiPush(rid string, n int, big bool) push {
 	return push{route: "/loki/api/v1/push", ctype: "application/json", body: []byte(body), ids: ids, okCode: 204, class: fmt.Sprintf("loki n=%d big=%v", n, big)}
 }
 
+// the other log ingest protocols (okCode 0: any 2xx is an acknowledgement)
+func otherLogPush(kind, rid string, n int) push {
+	base := nextSeq(n)
+	var ids, items []string
+	for i := 0; i < n; i++ {
+		s := base + int64(i)
+		ids = append(ids, fmt.Sprintf("%s/%d", rid, s))
+		mark := fmt.Sprintf("xid:%s/%d; pad %d", rid, s, i)
+		switch kind {
+		case "esdoc", "esbulk":
+			items = append(items, fmt.Sprintf(`{"message":%q,"n":%d}`, mark, i))
+		case "cf":
+			items = append(items, fmt.Sprintf(`{"ScriptName":"w%d","EventTimestampMs":%d,"u":%q}`, i%2, 1700000000000+s, mark))
+		case "ddlogs":
+			items = append(items, fmt.Sprintf(`{"ddsource":"src%d","service":"svc","message":%q}`, i%2, mark))
+		case "influx":
+			items = append(items, fmt.Sprintf(`syslog,req=%s,k=v%d message=%q %d`, rid, i%2, mark, 1700000000000000000+s))
+		}
+	}
+	p := push{ids: ids, okCode: 0, class: fmt.Sprintf("%s n=%d", kind, n)}
+	switch kind {
+	case "esdoc":
+		p.route, p.ctype, p.body = "/idx"+rid+"/_doc", "application/json", []byte(items[0])
+		p.ids = ids[:1]
+	case "esbulk":
+		var b strings.Builder
+		for _, it := range items {
+			b.WriteString(`{"index":{"_index":"idx` + rid + `"}}` + "\n" + it + "\n")
+		}
+		p.route, p.ctype, p.body = "/_bulk", "application/x-ndjson", []byte(b.String())
+	case "cf":
+		p.route, p.ctype, p.body = "/cf/v1/insert?ddsource=src", "application/json", []byte(strings.Join(items, "\n")+"\n")
+	case "ddlogs":
+		p.route, p.ctype, p.body = "/api/v2/logs", "application/json", []byte("["+strings.Join(items, ",")+"]")
+	case "influx":
+		p.route, p.ctype, p.body = "/influx/api/v2/write", "text/plain", []byte(strings.Join(items, "\n")+"\n")
+	}
+	return p
+}
+
 func promPush(rid string, nseries, nsamples int) push {
 	req := &prompb.WriteRequest{}
 	var ids []string
@@ -309,6 +359,9 @@ func pprofPush(rid string, ntypes int, bigTag bool) push {
 		ids: []string{"profsvc/svc" + rid}, class: fmt.Sprintf("pprof types=%d bigtag=%v", ntypes, bigTag)}
 }
 
+var otherKinds = []string{"esdoc", "esbulk", "cf", "ddlogs", "influx"}
+var ackedByKind = map[string]int{}
+
 func main() {
 	out := flag.String("out", "", "")
 	seed := flag.Int64("seed", 1, "")
@@ -319,7 +372,8 @@ func main() {
 	classes := map[string]int{}
 	var infra []string
 	for round := 0; round < *rounds; round++ {
-		pErr := []float64{0, 0.25, 0.5}[round%3]
+		// the last kind of round: the database refuses every INSERT, so every acknowledgement is a false one
+		pErr := []float64{0, 0.25, 0.5, 1}[round%4]
 		w, err := e2e.New(e2e.Options{IntervalMs: []float64{2, 5, 20}[rnd.Intn(3)], Workers: 1 + rnd.Intn(3), Attempts: 1 + rnd.Intn(3), MaxQueue: []int64{0, 5000, 200000}[rnd.Intn(3)],
 			NoReader: true, OnDo: onDo(rand.New(rand.NewSource(rnd.Int63())), pErr)})
 		if err != nil {
@@ -333,6 +387,11 @@ func main() {
 			pushes = append(pushes, lokiPush(rid(), n, false), zipkinPush(rid(), n), otlpPush(rid(), n))
 		}
 		pushes = append(pushes, lokiPush(rid(), 3, true))
+		for _, kind := range otherKinds {
+			for _, n := range []int{1, 3, 40} {
+				pushes = append(pushes, otherLogPush(kind, rid(), n))
+			}
+		}
 		for _, c := range [][2]int{{1, 1}, {1, 999}, {1, 1000}, {1, 1001}, {1, 2500}, {3, 400}, {1000, 1}, {1001, 1}, {2, 1500}} {
 			pushes = append(pushes, promPush(rid(), c[0], c[1]))
 		}
@@ -374,9 +433,10 @@ func main() {
 		for _, r := range res {
 			totalReq++
 			classes[r.p.class]++
-			if r.code != r.p.okCode {
+			if r.code != r.p.okCode && !(r.p.okCode == 0 && r.code/100 == 2) {
 				continue
 			}
+			ackedByKind[strings.Fields(r.p.class)[0]]++
 			acked++
 			mu.Lock()
 			for _, id := range r.p.ids {
@@ -413,7 +473,14 @@ func main() {
 		}
 		w.Close()
 	}
-	o := map[string]any{"requests": totalReq, "acked": acked, "blocks": blocks, "rows": rowsSeen, "classes": classes, "findings": findings, "signature_counts": sigSeen}
+	// vacuity: every protocol must have been acknowledged at least once with its rows found in a successful INSERT (round 0 has no
+	// faults), otherwise the driver's idea of the protocol's body is wrong
+	for _, k := range append([]string{"loki", "prom", "zipkin", "otlp", "pprof"}, otherKinds...) {
+		if ackedByKind[k] == 0 {
+			infra = append(infra, "no acknowledged request of protocol "+k)
+		}
+	}
+	o := map[string]any{"acked_by_protocol": ackedByKind, "infra": infra, "requests": totalReq, "acked": acked, "blocks": blocks, "rows": rowsSeen, "classes": classes, "findings": findings, "signature_counts": sigSeen}
 	b, _ := json.MarshalIndent(o, "", " ")
 	if *out != "" {
 		os.WriteFile(*out, b, 0644)
